@@ -589,6 +589,13 @@ impl VLog {
 			let mut writer = self.writer.write();
 
 			if writer.is_none() || writer.as_ref().unwrap().size() >= self.max_file_size {
+				// The file being retired holds values that the table written by the
+				// current flush will point to; `sync()` only reaches the active file,
+				// so make this one durable before letting go of it.
+				if let Some(old_writer) = writer.as_mut() {
+					old_writer.sync()?;
+				}
+
 				// Create new file
 				let file_id = self.next_file_id.fetch_add(1, Ordering::SeqCst);
 				let file_path = self.vlog_file_path(file_id);
